@@ -1,10 +1,10 @@
 SPECIFICATION Spec
 CONSTANTS
-  Ks = {6, 10, 40}
-  Rs = {8, 15, 60}
-  Js = {100}
+  Ks = {3, 6}
+  Rs = {4, 7}
+  Js = {8}
   Patterns = {"both", "a2b", "b2a"}
-  Horizon = 40
-  Posts = {"none"}
+  Horizon = 6
+  Posts = {"stranger", "resume"}
 INVARIANTS NoIdleTeardown NeverWithoutSession ContinuityT Dump
 CHECK_DEADLOCK FALSE
